@@ -33,11 +33,14 @@ def _prep(case, epg):
     ops, sm, kun, tun = ndc.build(case, epg)
     for op in ops:
         sm = op(sm, inplace=True)
-    kmax = 1.0
-    if sm.coords is not None:
-        kmax = max(1e-9, float(np.max(np.abs(np.asarray(sm.k)))))
-    else:
-        kmax = max(1e-9, float(sm.nstate * kun[0]))
+    # wavenumber scale of the sequence: the largest wavenumber any pathway can reach (sum of the shift moments), so that
+    # voxel sizes and positions stay commensurate with every intermediate dephasing (a final state refocused at k = 0
+    # would otherwise give absurd position scales and cos/sin of arguments ~1e13 in the isochromat reference)
+    total = 0.0
+    for o in case["ops"]:
+        if o["k"] != "pt":
+            total += float(np.max(np.abs(np.asarray(ndc.k4_of(o, case)[:3], dtype=float))))
+    kmax = max(total, 1.0) * float(np.max(kun))
     return sm, kun, tun, kmax
 
 
